@@ -207,3 +207,14 @@ def m_iter_as_slice(ex, site, a):
         while isinstance(w, Ptr): w = ex.load(w)
         rest.append(w)
     return SliceRef(VecV(rest, 'vec'), 0, len(rest), 'slice')
+
+
+@model('char::encode_utf8')
+def m_char_encode_utf8(ex, site, a):
+    """writes the char into the caller's buffer and returns the written prefix as &mut str; panics when the buffer is too small"""
+    from .models_coll import encode_utf8, as_slice
+    bs = encode_utf8(ex, a[0]); buf = as_slice(ex, a[1])
+    if len(bs) > len(buf):
+        raise Panic('encode_utf8', 'encode_utf8: need %d bytes to encode the char but buffer has just %d' % (len(bs), len(buf)), ex.where())
+    buf.vec.items[buf.lo:buf.lo + len(bs)] = bs
+    return SliceRef(buf.vec, buf.lo, buf.lo + len(bs), 'str')
